@@ -63,7 +63,18 @@ func genSendTok(r *Rng) string {
 	kind := []string{"MSG", "EXT", "FWD", "PFM", "RAWM"}[r.Intn(5)]
 	if kind == "RAWM" {
 		var b []byte
-		switch r.Intn(7) {
+		switch r.Intn(8) {
+		case 6: // as other implementations write a message without options: no fourth / third element at all
+			switch r.Intn(4) {
+			case 0:
+				b = nArr(nStr([]byte("raw")), nInt(7), nMap()).Enc()
+			case 1:
+				b = nArr(nStr([]byte("raw")), nExt(0, []byte{0, 0, 0, 7, 0, 0, 0, 0}), nMap(nStr([]byte("chunk")), nStr([]byte("decoy")))).Enc()
+			case 2:
+				b = nArr(nStr([]byte("raw")), nArr(nArr(nExt(0, []byte{0, 0, 0, 7, 0, 0, 0, 0}), nMap()))).Enc()
+			default:
+				b = nArr(nStr([]byte("raw")), nBin(nArr(nExt(0, []byte{0, 0, 0, 7, 0, 0, 0, 0}), nMap()).Enc())).Enc()
+			}
 		case 0: // a library-encoded message with a chunk
 			m := &protocol.Message{Tag: "raw", Timestamp: 7, Record: map[string]interface{}{"chunk": "decoy"}, Options: &protocol.MessageOptions{Chunk: string(genChunkID(r))}}
 			b, _ = m.MarshalMsg(nil)
@@ -146,6 +157,9 @@ func genTcpOp(r *Rng, st *int) string {
 		}
 		return fmt.Sprintf("HS(%s;%s;%s)", hm, pongModes[r.Intn(len(pongModes))], f)
 	case 5:
+		if r.Chance(6) {
+			return "TPS" // … after a pause longer than the timeout
+		}
 		return "TP"
 	case 6:
 		sz := r.Intn(50)
